@@ -87,11 +87,27 @@ class Sched:
         self.overlaps: set = set()
         self.job_of = [0] * nthreads
 
-    def yield_point(self):
+    target = None       # (qualified function name, occurrence): preempt thread 0 exactly there, once
+    seen_target = 0
+    record = None       # set -> collects the qualified names of all functions thread 0 starts
+
+    def yield_point(self, code=None):
         i = self.tid.get(threading.get_ident())
         if i is None or i != self.cur:
             return
         self.points += 1
+        if self.target is not None or self.record is not None:
+            # systematic mode (preemption bound 1): thread 0 is preempted at the n-th start of one chosen function and the
+            # other thread then runs its whole job before thread 0 resumes
+            if i == 0 and code is not None:
+                q = code.co_qualname
+                if self.record is not None:
+                    self.record[q] = self.record.get(q, 0) + 1
+                if self.target is not None and q == self.target[0]:
+                    self.seen_target += 1
+                    if self.seen_target == self.target[1]:
+                        self.switch(i)
+            return
         if self.rnd.random() < self.p:
             self.switch(i)
 
@@ -139,7 +155,8 @@ class C13(Prop):
             "definitions, footnote labels, trailing headings, leading tables/rules) under random options, compared call "
             "by call with a reversed-order run in another process and with fresh single-call processes; (b) 2..4 threads "
             "x 4..6 jobs under a deterministic PY_START scheduler (seeded; switch probability 0.5%..5%), several schedules "
-            "per job set; (c) 8 free-running threads. Non-trivial: >= 2 different documents in the sequence / >= 1 forced "
+            "per job set; (c) 8 free-running threads; (d) systematic single preemption: two calls, the first preempted at the n-th start of "
+            "function F for every F it starts (recorded per document), the second then runs completely. Non-trivial: >= 2 different documents in the sequence / >= 1 forced "
             "switch; distinct by hash of (sequence | schedule switch trace).")
     assumptions = ["interleavings are explored at Python function-call granularity (PY_START events of code objects under "
                    "flowmark/ and marko/), the granularity the property states; CPython with the GIL",
@@ -156,6 +173,8 @@ class C13(Prop):
             yield {"kind": "schedule", "seed": r.getrandbits(40), "threads": r.choice([2, 3, 4]), "jobs": r.randint(4, 6),
                    "schedules": 6 if tier == "quick" else 12, "p": r.choice([0.005, 0.02, 0.05])}
         yield {"kind": "stress", "seed": r.getrandbits(40), "threads": 8, "jobs": 6}
+        for _ in range(1 if tier == "quick" else 6):
+            yield {"kind": "preempt", "seed": r.getrandbits(40), "max_points": 60 if tier == "quick" else 400}
 
     def setup_worker(self, col, tier):
         self.mon = getattr(sys, "monitoring", None)
@@ -175,7 +194,7 @@ class C13(Prop):
         def on_start(code, off):
             if code.co_filename.startswith(self.roots):
                 if self.S is not None:
-                    self.S.yield_point()
+                    self.S.yield_point(code)
             else:
                 return mon.DISABLE
         mon.register_callback(mon.DEBUGGER_ID, mon.events.PY_START, on_start)
@@ -251,6 +270,55 @@ class C13(Prop):
                 break
         col.hist("threads", K)
         col.sample({"kind": "schedule", "threads": K, "jobs_per_thread": J, "schedules": len(sigs), "p_switch": case["p"]})
+
+    def _check_preempt(self, case, col):
+        """Two threads, one job each; thread 0 is preempted once, at the n-th start of function F, thread 1 then runs its whole
+        document, thread 0 resumes. F ranges over the functions thread 0 actually starts (recorded first), so every function
+        boundary inside a call is tried as the place where another call intervenes."""
+        if self.mon is None:
+            return
+        r = random.Random(case["seed"])
+        pool = make_jobs(r, 12)
+        rich = [j for j in pool if "```" in j[0] or "~~~" in j[0]] or pool
+        a = r.choice(rich)
+        b = r.choice([j for j in rich if j is not a] or pool)
+        b = [b[0], dict(a[1])] if r.random() < 0.5 else b  # same options half of the time (shared cache keys)
+        jobs = [[a], [b]]
+        solo = [[(lambda x: x if isinstance(x, str) else "RAISED:" + x.text)(fm.fmt(t, **o)) for t, o in js] for js in jobs]
+        mon = self.mon
+
+        def run(target, record=None):
+            self.S = Sched(2, case["seed"], 0.0)
+            self.S.target, self.S.record = target, record
+            mon.set_events(mon.DEBUGGER_ID, mon.events.PY_START)
+            try:
+                return self.S.run(jobs), self.S
+            finally:
+                mon.set_events(mon.DEBUGGER_ID, 0)
+                mon.restart_events()
+                self.S = None
+        rec: dict = {}
+        run(None, rec)
+        names = sorted(rec)
+        r.shuffle(names)
+        tried = 0
+        for q in names[:case["max_points"]]:
+            for occ in sorted({1, r.randint(1, rec[q])}):
+                res, S = run((q, occ))
+                tried += 1
+                col.case()
+                col.mon("schedule")
+                col.count("preemption_points_tried")
+                if S.switches:
+                    col.distinct("preempt", case["seed"], q, occ)
+                if res != solo:
+                    i = 0 if res[0] != solo[0] else 1
+                    col.violation("schedule", "C13/preempt/concurrent-result-differs-from-solo", dict(case, function=q, occurrence=occ),
+                                  {"preempted_at": q, "occurrence": occ, "thread": i, "solo": (solo[i][0] or "")[:200],
+                                   "concurrent": (res[i][0] or "")[:200]})
+                    return
+        col.hist("functions_started_by_one_call", min(len(names) // 50 * 50, 500))
+        col.sample({"kind": "preempt", "functions_seen": len(names), "preemption_points_tried": tried})
 
     def _check_stress(self, case, col):
         r = random.Random(case["seed"])
